@@ -157,3 +157,52 @@ def build(name, workdir, repo=REPO):
                             expect_classes=["postcondition", "precondition"],
                             meta={"file": "%s/%s" % (v["dir"], src), "sha256": meta[src]["sha256"], "aspect": "mh-tape", "cost": 300 if role == "update" else 60}))
     return jobs
+
+
+INIT = {
+    "mh_sha1": ("mh_sha1.c", "_mh_sha1_init", "int r = _mh_sha1_init(c);", "ISAL_MH_SHA1_CTX_ERROR_NULL"),
+    "mh_sha256": ("mh_sha256.c", "_mh_sha256_init", "int r = _mh_sha256_init(c);", "ISAL_MH_SHA256_CTX_ERROR_NULL"),
+    "mur": ("mh_sha1_murmur3_x64_128.c", "_mh_sha1_murmur3_x64_128_init", "uint64_t seed; int r = _mh_sha1_murmur3_x64_128_init(c, seed);",
+            "ISAL_MH_SHA1_MURMUR3_CTX_ERROR_NULL"),
+}
+
+
+def init_job(name, workdir, repo=REPO):
+    """Functional contract of the init function (contracts_init/mh_init_prelude.h): segment chaining values = FIPS IV,
+    nothing consumed, both murmur state words = the full 64-bit seed; NULL refused untouched.
+    The 16-iteration loop has a constant bound: --unwind 20 with unwinding assertions is complete, not a stand-in."""
+    v = VARIANTS[name]
+    tu, fn, call, errnull = INIT[name]
+    d = os.path.join(repo, v["dir"])
+    os.makedirs(workdir, exist_ok=True)
+    text = open(os.path.join(d, tu)).read()
+    defs = ["#define VF_MH_W %d" % v["W"], "#define VF_MH_INTERIM %s" % v["interim"], "#define VF_MH_ERR_NULL %s" % errnull]
+    if name == "mur":
+        defs.append("#define VF_MUR 1")
+    defs.append('#include "mh_init_prelude.h"')
+    prelude = "\n/* ---- inserted by vf/mh.py (init) ---- */\n" + "\n".join(defs) + "\n"
+    rs = [overlay.Rule("prelude:init:" + tu, r"^(?P<at>)int\n" + re.escape(fn) + r"\(", prelude), overlay.func_def_rule(fn, "VF_C_MH_INIT")]
+    out, fired = overlay.apply(text, rs)
+    h = """
+#ifdef VF_WITH_CANARY
+#define VF_CANARY() __CPROVER_assert(0, "vf_canary: end of harness reachable")
+#else
+#define VF_CANARY() ((void) 0)
+#endif
+void vf_h_%s(void)
+{
+        %s *c;
+        %s
+        VF_CANARY();
+}
+""" % (fn, v["ctx"], call)
+    path = os.path.join(workdir, "init_" + tu)
+    with open(path, "w") as f:
+        f.write(out + h)
+    # own directory: every file of an include directory under /verif is part of the cache key of the jobs that use it
+    inc = [workdir, os.path.join(repo, "include"), d, os.path.join(repo, "mh_sha1"), os.path.join(VERIF, "contracts_init")]
+    return Job("mh/%s/init" % name, [path], entry="vf_h_" + fn, enforce=fn, replace=[], includes=inc,
+               defines=["SAFE_PARAM", "NDEBUG"], unwind=20, timeout=600, solvers=["minisat"], mem_gb=12,
+               checks=["--bounds-check", "--pointer-check"], expect_classes=["postcondition"],
+               meta={"file": "%s/%s" % (v["dir"], tu), "sha256": overlay.sha256_text(text), "aspect": "mh-init", "cost": 20,
+                     "fired": fired})
